@@ -3,7 +3,8 @@
     - route/route.go   redirect option parsing (strconv.Atoi, 300-399) -> [redirect_code]
       (as repaired by fix fa24a7f; the old behaviour is kept as [redirect_code_unrepaired])
     - route/table.go   [Table.Lookup] host loop with the self-redirect skip -> [lookup_loop]
-      (as repaired by fix 4431a54; the old loop is kept as [lookup_loop_unrepaired])
+      (as repaired by fixes 4431a54 and bcdacf0; the old loops are kept as [lookup_loop_unrepaired]
+      and [lookup_loop_hdr_only])
     - proxy/http_proxy.go [HTTPProxy.ServeHTTP] redirect branch (http.Redirect) -> [serve]
     - the RedirectURL field of the SHARED *route.Target, written by Lookup and read
       later by ServeHTTP -> two atomic actions on a shared store, [run_sched].
@@ -226,7 +227,16 @@ Definition redirect_code_unrepaired (opt : str) : Z :=
 
 (* ------------------------------------------------------------------ *)
 (** * route/table.go:424-441: the host loop of Table.Lookup *)
+(* the scheme the client used: X-Forwarded-Proto when a proxy in front of fabio reports it,
+   otherwise that of the connection itself (fix: bcdacf0) *)
+Definition eff_scheme (q : request) : str :=
+  if negb (is_nil (q_xfp q)) then q_xfp q
+  else if q_tls q then [104;116;116;112;115] else [104;116;116;112].
 Definition is_self (u : url) (q : request) : bool :=
+  beq (u_scheme u) (eff_scheme q) && beq (u_host u) (q_host q) && beq (u_path u) (q_path q).
+(* before fix bcdacf0 the scheme was compared with the header only.  Used only by the
+   refutation theorems. *)
+Definition is_self_unrepaired (u : url) (q : request) : bool :=
   beq (u_scheme u) (q_xfp q) && beq (u_host u) (q_host q) && beq (u_path u) (q_path q).
 
 (* [cands]: what t.lookup(h, path) yields for each matching host, then for "".
@@ -259,11 +269,28 @@ Fixpoint lookup_loop_unrepaired (q : request) (cands : list (option target)) (cu
       if (t_code t =? 0)%Z then (Some t, [])
       else
         let u := build_redirect_url t q in
-        if is_self u q then
+        if is_self_unrepaired u q then
           let '(res, ws) := lookup_loop_unrepaired q r (Some t) in (res, (t_id t, u) :: ws)
         else (Some t, [(t_id t, u)])
   end.
 Definition lookup_unrepaired (q : request) (cands : list (option target)) := lookup_loop_unrepaired q cands None.
+
+(* between 4431a54 and bcdacf0: the skipped target is cleared, the test is header-only.
+   Used only by the refutation theorem. *)
+Fixpoint lookup_loop_hdr_only (q : request) (cands : list (option target)) (cur : option target)
+  : option target * list (nat * url) :=
+  match cands with
+  | [] => (cur, [])
+  | None :: r => lookup_loop_hdr_only q r None
+  | Some t :: r =>
+      if (t_code t =? 0)%Z then (Some t, [])
+      else
+        let u := build_redirect_url t q in
+        if is_self_unrepaired u q then
+          let '(res, ws) := lookup_loop_hdr_only q r None in (res, (t_id t, u) :: ws)
+        else (Some t, [(t_id t, u)])
+  end.
+Definition lookup_hdr_only (q : request) (cands : list (option target)) := lookup_loop_hdr_only q cands None.
 
 (* ------------------------------------------------------------------ *)
 (** * shared targets: the RedirectURL fields *)
